@@ -462,3 +462,11 @@ def as_slist(cell):
             return r
         return SList(len(items), get, None)
     raise TypeError('as_slist(%r)' % (cell,))
+
+
+class KVDict(object):
+    """dict with possibly symbolic keys: ordered list of (present, key, value); keys pairwise distinct
+    among present entries (maintained by set_item)"""
+
+    def __init__(self, entries=()):
+        self.entries = list(entries)
